@@ -52,6 +52,10 @@ struct Watch {
     passcodes: BTreeMap<usize, u32>,
     window_seen_closed_at: Option<u64>,
     last_failures: (u8, bool),
+    /// Since when the "PASE establishment in progress" marker has been set without any exchange
+    /// on an unsecured session at the device
+    marker_alone_since: Option<u64>,
+    marker_violations: Vec<(String, String)>,
 }
 
 impl Watch {
@@ -86,6 +90,21 @@ impl Watch {
                     ));
                 }
             }
+        }
+        // The marker "a PASE establishment is in progress" belongs to a handshake: the responder
+        // that set it is working on an exchange of an unsecured session
+        let handshake_alive = st.snap.sessions.iter().any(|s| matches!(s.mode, SessionMode::PlainText) && !s.exchanges.is_empty());
+        if st.snap.pase.establishing && !handshake_alive {
+            match self.marker_alone_since {
+                None => self.marker_alone_since = Some(time),
+                Some(t0) if time - t0 >= 300 * MS && self.marker_violations.is_empty() => self.marker_violations.push((
+                    "C20-pase-marker-left-behind".into(),
+                    format!("t={time}: the establishment-in-progress marker has been set since t={t0} although no handshake exchange exists on the device (every new PASE attempt is answered Busy)"),
+                )),
+                _ => {}
+            }
+        } else {
+            self.marker_alone_since = None;
         }
         if st.snap.pase.pake_failures > 20 {
             self.violations.push((
@@ -253,6 +272,8 @@ impl Scenario for PaseStorm {
             passcodes: passcodes.clone(),
             window_seen_closed_at: None,
             last_failures: (0, false),
+            marker_alone_since: None,
+            marker_violations: Vec::new(),
         };
         let mut before_probe: Option<DevState> = None;
         let run = drive_full_with(seed, cfg, &mut |t, states| {
@@ -324,6 +345,12 @@ impl Scenario for PaseStorm {
                 }
             }
             Which::C20 => {
+                // (handlers are cancelled under faults: the marker then stays until its own time-out)
+                if !self.faults {
+                    for (o, d) in &watch.marker_violations {
+                        out.violate(o, d.clone());
+                    }
+                }
                 if run.all_done && !matches!(run.stop, crate::kernel::StopReason::MaxPolls) {
                     // (a) after traffic stopped and every timeout ran out: nothing left behind
                     if let Some(st) = &before_probe {
@@ -620,6 +647,8 @@ impl Scenario for Pake3Corrupted {
             passcodes,
             window_seen_closed_at: None,
             last_failures: (0, false),
+            marker_alone_since: None,
+            marker_violations: Vec::new(),
         };
         let mut pase_sessions_seen = 0u64;
         let run = drive_full_with(seed, cfg, &mut |t, states| {
